@@ -32,7 +32,11 @@ pub fn remove_oscat_comment(source: String) -> String {
                     if c == '\n' {
                         output.push('\n');
                     } else {
-                        output.push(' ');
+                        // One space per byte so that a multi-byte character
+                        // does not shift the positions that follow it
+                        for _ in 0..c.len_utf8() {
+                            output.push(' ');
+                        }
                     }
                 }
 
